@@ -7,7 +7,7 @@ from fractions import Fraction
 
 from ..absint import FuncV, Interp, ObjV, VecV, State
 from ..forms import Const, Form, TupleV, fpow, mk_fn
-from ..rules import PI, S, find_raise_guards, names_in
+from ..rules import PI, S, find_raise_guards, names_in, check_late_binding
 from ..srcmodel import src_of
 
 EXPLANATION = (
@@ -507,6 +507,7 @@ def run(ctx):
     rule_optimum_threshold(ctx)
     rule_device_counterparts(ctx)
     _q_guard(ctx, ctx.pkg.func("utils.theory_BER.<locals>.temp"), "C13.7")
+    check_late_binding(ctx, "C13.8", ["utils.theory_BER", "utils.noise_variances", "utils.average_voltages", "utils.p_ase", "utils.optimum_threshold", "ook.theory_BER", "ook.THRESHOLD_EST", "ook.BER_analizer", "ppm.theory_BER", "ppm.THRESHOLD_EST", "ppm.BER_analizer"])
     ctx.require_min("C13.2", 20)
     ctx.require_min("C13.3", 14)
     ctx.require_min("C13.5", 4)
